@@ -189,6 +189,43 @@ func returnedGlobal(ret *ssa.Return) (string, bool) {
 
 func c18R2(c *Ctx, id string) {
 	c08R3body(c, id)
+	// db.allocate: a size-limit error coming back from db.mmap is returned as is (only other mmap errors are wrapped)
+	{
+		da := c.fn("bbolt.(*DB).allocate")
+		ok := false
+		detail := "no `err == ErrMaxSizeReached` test on db.mmap's error"
+		for _, mm := range plainCallsIn(da, "bbolt.(*DB).mmap") {
+			eachInstr(da, func(in ssa.Instruction) {
+				bo, isBin := in.(*ssa.BinOp)
+				if !isBin || bo.Op != token.EQL {
+					return
+				}
+				ld, isLd := bo.Y.(*ssa.UnOp)
+				if !isLd {
+					return
+				}
+				g, isG := ld.X.(*ssa.Global)
+				if !isG || g.Name() != "ErrMaxSizeReached" || bo.X != ssa.Value(mm) {
+					return
+				}
+				for _, r := range *bo.Referrers() {
+					iff, isIf := r.(*ssa.If)
+					if !isIf {
+						continue
+					}
+					for _, ret := range returnsOf(da) {
+						if blockDominatedByEdge(iff.Block(), iff.Block().Succs[0], ret.Block()) {
+							ok = returnedValue(ret, 1) == ssa.Value(mm)
+							if !ok {
+								detail = "on `err == ErrMaxSizeReached` a different (wrapped) error is returned"
+							}
+						}
+					}
+				}
+			})
+		}
+		c.check(id+":(*DB).allocate:mmap-limit-error-unwrapped", da, da.Pos(), "when db.mmap reports ErrMaxSizeReached, allocate returns that very error (callers recognise it)", ok, detail)
+	}
 	// propagation: the callers between allocate and Commit return the error unchanged
 	for _, spec := range []struct{ fn, callee string }{
 		{"bbolt.(*Tx).allocate", "bbolt.(*DB).allocate"},
